@@ -6,6 +6,7 @@ import (
 	"hash/fnv"
 	"os"
 	"path/filepath"
+	"regexp"
 	"strings"
 	"sync/atomic"
 	"syscall"
@@ -26,18 +27,23 @@ type violRec struct {
 
 // workerOut is what a worker hands back to the parent.
 type workerOut struct {
-	Stage       string              `json:"stage"`
-	Shard       int                 `json:"shard"`
-	Done        bool                `json:"done"` // whole shard evaluated
-	Configs     int                 `json:"configs"`
-	Evals       int                 `json:"evals"`
-	KernelDumps int                 `json:"kernel_dumps"`
-	Builds      int                 `json:"builds"`
-	Classes     map[string]int      `json:"classes"` // call|kernel outcome|final class -> evaluations
-	Viols       map[string]*violRec `json:"viols"`
-	Samples     []map[string]any    `json:"samples"`
-	HarnessErr  string              `json:"harness_err,omitempty"`
-	Nondeterm   string              `json:"nondeterminism,omitempty"`
+	Stage         string              `json:"stage"`
+	Shard         int                 `json:"shard"`
+	Done          bool                `json:"done"` // whole shard evaluated
+	Configs       int                 `json:"configs"`
+	Evals         int                 `json:"evals"`
+	KernelDumps   int                 `json:"kernel_dumps"`
+	AvfsDumps     int                 `json:"avfs_dumps"`
+	VariantEvals  int                 `json:"variant_evals"`
+	Disagreements int                 `json:"disagreements"`
+	Builds        int                 `json:"builds"`
+	CacheHits     int                 `json:"kernel_cache_hits"`
+	Undos         int                 `json:"kernel_undos"`
+	Classes       map[string]int      `json:"classes"` // call|kernel outcome|final class -> evaluations
+	Viols         map[string]*violRec `json:"viols"`
+	Samples       []map[string]any    `json:"samples"`
+	HarnessErr    string              `json:"harness_err,omitempty"`
+	Nondeterm     string              `json:"nondeterminism,omitempty"`
 }
 
 type evaluator struct {
@@ -50,6 +56,12 @@ type evaluator struct {
 	hash    uint64 // hash of the results of the configuration being evaluated
 	cfgIdx  int
 	sampleN int
+	unclean bool // the configuration has a link target that lexical cleaning changes
+
+	// per configuration: the kernel's answers on pristine trees, by
+	// (alt, call, path) - the normalised questions of many queries coincide
+	kcache   map[string]*kres
+	clsCache map[string]classes
 }
 
 func (e *evaluator) clean(s string) string {
@@ -89,6 +101,26 @@ type finding struct {
 	kind, what, treeDiff string
 }
 
+// kres is the kernel's answer to one call on a pristine tree.
+type kres struct {
+	rk fsx.Res
+	kd []string
+}
+
+func sameFindings(a, b []finding) bool {
+	if len(a) != len(b) {
+		return false
+	}
+
+	for i := range a {
+		if a[i].kind != b[i].kind || a[i].what != b[i].what {
+			return false
+		}
+	}
+
+	return true
+}
+
 // statDiff compares two "name type perm uid:gid [sz n]" values.
 func statDiff(k, v string, skipName bool) []string {
 	kf, vf := strings.Fields(k), strings.Fields(v)
@@ -113,8 +145,9 @@ func statDiff(k, v string, skipName bool) []string {
 	return d
 }
 
-// compareRO compares the outcome of a read-only call.
-func (e *evaluator) compareRO(cs callSpec, comps []string, rk, rv fsx.Res) []finding {
+// compareRO compares the outcome of a read-only call. q is the path given to
+// the kernel side.
+func (e *evaluator) compareRO(cs callSpec, q string, rk, rv fsx.Res) []finding {
 	if rk.Kind != rv.Kind {
 		return []finding{{kind: "outcome"}}
 	}
@@ -127,7 +160,7 @@ func (e *evaluator) compareRO(cs callSpec, comps []string, rk, rv fsx.Res) []fin
 	case "Stat", "Lstat":
 		// FileInfo.Name is the base name of the argument; when the argument
 		// ends in ".." no particular name is demanded.
-		d := statDiff(rk.Val, rv.Val, comps[len(comps)-1] == "..")
+		d := statDiff(rk.Val, rv.Val, filepath.Base(q) == ".." || q == "..")
 		if len(d) == 0 {
 			return nil
 		}
@@ -151,13 +184,7 @@ func (e *evaluator) compareRO(cs callSpec, comps []string, rk, rv fsx.Res) []fin
 		}
 	case "EvalSymlinks":
 		if rk.Val != rv.Val {
-			what := "path"
-
-			if !filepath.IsAbs(rk.Val) && filepath.IsAbs(rv.Val) && filepath.Join(e.w.cwd(), rk.Val) == rv.Val {
-				what = "absolute-for-relative-input"
-			}
-
-			return []finding{{kind: "value", what: what}}
+			return []finding{{kind: "value", what: "path"}}
 		}
 	default:
 		if rk.Val != rv.Val {
@@ -168,55 +195,161 @@ func (e *evaluator) compareRO(cs callSpec, comps []string, rk, rv fsx.Res) []fin
 	return nil
 }
 
-// evalMut executes a mutating call on both sides (pristine trees), compares
-// outcome and resulting trees, and leaves the dirty flags set.
-func (e *evaluator) evalMut(cs callSpec, q string) (rk, rv fsx.Res, fs []finding) {
+var mtimeTok = regexp.MustCompile(` t(\d{16,})`)
+
+// showDump makes dumps taken with and without mtimes comparable for display:
+// the instant set by Chtimes becomes "tSET", every other mtime disappears.
+func showDump(lines []string) []string {
+	out := make([]string, len(lines))
+
+	for i, l := range lines {
+		out[i] = mtimeTok.ReplaceAllStringFunc(l, func(m string) string {
+			if m[2:] == fixedMtime {
+				return " tSET"
+			}
+
+			return ""
+		})
+	}
+
+	return out
+}
+
+// mutK executes a mutating call on the kernel side (pristine tree) and
+// returns the outcome and the resulting tree.
+func (e *evaluator) mutK(cs callSpec, q string) (rk fsx.Res, kd []string) {
 	w := e.w
 	rk = w.run(w.k, cs, q)
-	rv = w.run(w.v, cs, q)
-
 	mt := cs.Name == "Chtimes"
 
 	// A failed system call changes nothing (every kernel-side call here is a
 	// single system call, os.Remove two that both failed), so the kernel dump
 	// is taken only after a success.
-	kd := w.pristineK
+	kd, ps := w.pristineK, w.pristineKs
+	if w.alt {
+		kd, ps = w.altPristineK, strings.Join(w.altPristineK, "\n")
+	}
+
 	if rk.Kind == "ok" {
 		kd = w.dumpK(mt)
 		e.out.KernelDumps++
-		w.dirtyK = mt || strings.Join(kd, "\n") != w.pristineKs
+		w.dirtyK = mt || strings.Join(kd, "\n") != ps
 	}
 
-	vd := w.dumpV(mt && rv.Kind == "ok")
-	w.dirtyV = (mt && rv.Kind == "ok") || rv.Kind == "PANIC" || rv.Kind == "DEADLOCK" || strings.Join(vd, "\n") != w.pristineVs
+	return rk, kd
+}
+
+func (e *evaluator) ckey(cs callSpec, q string) string {
+	k := cs.Name + "|" + q
+	if e.w.alt {
+		return "A|" + k
+	}
+
+	return k
+}
+
+// kernel answers call cs on path q in the current (pristine) kernel tree,
+// from the cache if the same question was asked before in this
+// configuration; the tree is pristine again afterwards.
+func (e *evaluator) kernel(cs callSpec, q string) (*kres, error) {
+	// relative paths mean different things in different modes
+	cacheable := filepath.IsAbs(q)
+	key := ""
+
+	if cacheable {
+		key = e.ckey(cs, q)
+
+		if r, ok := e.kcache[key]; ok {
+			e.out.CacheHits++
+
+			return r, nil
+		}
+	}
+
+	r := &kres{}
+
+	if cs.Mut {
+		r.rk, r.kd = e.mutK(cs, q)
+
+		if e.w.dirtyK && !e.w.undoK(r.kd) {
+			alt := e.w.alt
+
+			if err := e.w.buildK(); err != nil {
+				return nil, fmt.Errorf("kernel-side rebuild: %v", err)
+			}
+
+			e.w.alt = alt
+		}
+	} else {
+		r.rk = e.w.run(e.w.k, cs, q)
+	}
+
+	if cacheable {
+		e.kcache[key] = r
+	}
+
+	return r, nil
+}
+
+// mutV executes a mutating call on MemFS (pristine tree). The tree is dumped
+// through the public API after a success, and after a failure only if the
+// node graph changed (hook dump).
+func (e *evaluator) mutV(cs callSpec, q string) (rv fsx.Res, vd []string) {
+	w := e.w
+	rv = w.run(w.v, cs, q)
+	mt := cs.Name == "Chtimes" && rv.Kind == "ok"
+
+	switch {
+	case rv.Kind == "PANIC" || rv.Kind == "DEADLOCK":
+		w.dirtyV = true
+		vd = w.dumpV(false)
+	case rv.Kind != "ok" && w.internalDump() == w.pristineVI:
+		vd = w.pristineV
+	default:
+		vd = w.dumpV(mt)
+		e.out.AvfsDumps++
+		w.dirtyV = mt || strings.Join(vd, "\n") != w.pristineVs
+	}
+
+	return rv, vd
+}
+
+// compareMut compares outcome and resulting trees of a mutating call.
+func (e *evaluator) compareMut(cs callSpec, rk fsx.Res, kd []string, rv fsx.Res, vd []string) []finding {
+	w := e.w
+	masked := w.pristineDiff
+
+	if w.alt {
+		masked = w.altDiff
+	}
 
 	fm := ""
-	if mt {
+	if cs.Name == "Chtimes" {
 		fm = fixedMtime
 	}
 
 	var nd []string
 
 	for _, d := range treeDiff(kd, vd, fm) {
-		if !w.pristineDiff[d] {
+		if !masked[d] {
 			nd = append(nd, d)
 		}
 	}
 
 	td := ""
 	if len(nd) > 0 {
-		td = e.clean(fsx.DiffLines(kd, vd))
+		td = e.clean(fsx.DiffLines(showDump(kd), showDump(vd)))
 	}
 
 	if rk.Kind != rv.Kind {
-		return rk, rv, []finding{{kind: "outcome", treeDiff: td}}
+		return []finding{{kind: "outcome", treeDiff: td}}
 	}
 
 	if len(nd) > 0 {
-		return rk, rv, []finding{{kind: "tree", what: strings.Join(nd, ","), treeDiff: td}}
+		return []finding{{kind: "tree", what: strings.Join(nd, ","), treeDiff: td}}
 	}
 
-	return rk, rv, nil
+	return nil
 }
 
 func (e *evaluator) mix(s string) {
@@ -246,7 +379,7 @@ func (e *evaluator) evalConfig(ci int) error {
 	}
 
 	if setupRes.Kind != "ok" || len(structural) > 0 {
-		sig := kf.Sig{"call": "setup", "final": "-", "via": "-", "dd": "-", "form": "abs", "kernel": "ok", "avfs": setupRes.Kind, "kind": "setup"}
+		sig := kf.Sig{"call": "setup", "final": "-", "via": "-", "kernel": "ok", "avfs": setupRes.Kind, "kind": "setup"}
 		if len(structural) > 0 {
 			sig["what"] = strings.Join(structural, ",")
 		}
@@ -260,6 +393,10 @@ func (e *evaluator) evalConfig(ci int) error {
 
 		return nil
 	}
+
+	e.unclean = w.hasUncleanTargets()
+	e.kcache = map[string]*kres{}
+	e.clsCache = map[string]classes{}
 
 	for mode := 0; mode < 3; mode++ {
 		lens := e.st.AbsLens
@@ -300,7 +437,220 @@ func (e *evaluator) evalConfig(ci int) error {
 		return err
 	}
 
+	// the kernel tree must be pristine again (checks undoK and the rebuilds)
+	if kd := strings.Join(w.dumpK(false), "\n"); kd != w.pristineKs {
+		return fmt.Errorf("kernel tree not pristine at the end of the configuration: %s", e.clean(fsx.DiffLines(w.pristineK, strings.Split(kd, "\n"))))
+	}
+
 	e.out.Configs++
+
+	return nil
+}
+
+// variant is a normalisation of the oracle's input: MemFS makes every path
+// absolute and cleans it lexically before resolving it, and stores link
+// targets lexically cleaned. Asking the kernel the normalised question tells
+// whether a disagreement is explained by that (and what remains if not).
+type variant struct {
+	name string
+	q    string
+	alt  bool
+}
+
+func (e *evaluator) variants(mode int, q string) []variant {
+	var qs []variant
+
+	abs := q
+	if mode != 0 {
+		abs = e.w.cwd() + "/" + q
+		qs = append(qs, variant{name: "query-absolute", q: abs})
+	}
+
+	if c := filepath.Clean(abs); c != abs {
+		n := "query-cleaned"
+		if mode != 0 {
+			n = "query-absolute-cleaned"
+		}
+
+		qs = append(qs, variant{name: n, q: c})
+	}
+
+	out := append([]variant{}, qs...)
+
+	if e.unclean {
+		out = append(out, variant{name: "target-cleaned", q: q, alt: true})
+
+		for _, v := range qs {
+			out = append(out, variant{name: v.name + "+target-cleaned", q: v.q, alt: true})
+		}
+	}
+
+	return out
+}
+
+type classes struct{ via, final string }
+
+// classify gives the signature classes of path q (as given to the kernel,
+// relative paths relative to the cwd of the mode) in the current, pristine
+// kernel tree.
+func (e *evaluator) classify(mode int, q string) classes {
+	if !filepath.IsAbs(q) {
+		q = e.w.cwd() + "/" + q
+	}
+
+	key := q
+	if e.w.alt {
+		key = "A|" + q
+	}
+
+	if c, ok := e.clsCache[key]; ok {
+		return c
+	}
+
+	via, _, final := e.w.classifyAbs(q)
+	c := classes{via: via, final: final}
+	e.clsCache[key] = c
+
+	return c
+}
+
+type evalRes struct {
+	rk, rv fsx.Res
+	kd, vd []string // trees after a mutating call
+	fs     []finding
+}
+
+// explain is called for an evaluation with findings (both sides pristine
+// again). It asks the kernel the normalised questions and reports.
+func (e *evaluator) explain(ci, mode, qrank, callIdx int, cs callSpec, comps []string, q string, r evalRes, links []Link) error {
+	w := e.w
+	key := [4]int{ci, mode, qrank, callIdx}
+
+	type tried struct {
+		v   variant
+		rk  fsx.Res
+		fs  []finding
+		cls classes
+	}
+
+	var (
+		tries     []tried
+		explained *tried
+	)
+
+	for _, v := range e.variants(mode, q) {
+		if err := w.useAlt(v.alt); err != nil {
+			return err
+		}
+
+		t := tried{v: v, cls: e.classify(mode, v.q)}
+
+		kr, err := e.kernel(cs, v.q)
+		if err != nil {
+			return err
+		}
+
+		t.rk = kr.rk
+
+		if cs.Mut {
+			t.fs = e.compareMut(cs, kr.rk, kr.kd, r.rv, r.vd)
+		} else {
+			t.fs = e.compareRO(cs, v.q, kr.rk, r.rv)
+		}
+
+		e.out.VariantEvals++
+		tries = append(tries, t)
+
+		if len(t.fs) == 0 {
+			explained = &tries[len(tries)-1]
+
+			break
+		}
+	}
+
+	if err := w.restore(); err != nil {
+		return err
+	}
+
+	replay := func(norm string, rk fsx.Res, f finding) func() map[string]any {
+		return func() map[string]any {
+			m := map[string]any{
+				"links": links, "cwd": modeNames[mode], "query": strings.Join(comps, "/"), "call": cs.Name, "operation": e.clean(w.callString(cs, q)),
+				"kernel": e.clean(r.rk.String()), "avfs": e.clean(r.rv.String()),
+				"note": "tree under R: dir d, file d/f (\"DF\"), file f (\"F\") + links; place R = link in R, place d = link in R/d; target R/x = absolute; cwd abs = query is R/<query>, relR = cwd R, reld = cwd R/d",
+			}
+			if r.rk.Msg != "" {
+				m["kernel_msg"] = e.clean(r.rk.Msg)
+			}
+
+			if r.rv.Msg != "" {
+				m["avfs_msg"] = e.clean(r.rv.Msg)
+			}
+
+			if len(r.fs) > 0 && r.fs[0].treeDiff != "" {
+				m["tree_diff"] = r.fs[0].treeDiff + "   (- kernel, + avfs; paths relative to BASE = R/../../../../..)"
+			}
+
+			if norm != "" {
+				var tr []string
+				for _, t := range tries {
+					tr = append(tr, fmt.Sprintf("%s: kernel on %s -> %s", t.v.name, e.clean(t.v.q), e.clean(t.rk.String())))
+				}
+
+				m["normalisations_tried"] = tr
+			}
+
+			if f.treeDiff != "" && norm != "" {
+				m["tree_diff_after_normalisation"] = f.treeDiff
+			}
+
+			return m
+		}
+	}
+
+	full := func(cls classes, rk fsx.Res, f finding) kf.Sig {
+		sig := kf.Sig{"call": cs.Name, "final": cls.final, "via": cls.via, "kernel": rk.Kind, "avfs": r.rv.Kind, "kind": f.kind}
+		if f.what != "" {
+			sig["what"] = f.what
+		}
+
+		return sig
+	}
+
+	switch {
+	case explained != nil:
+		e.report(kf.Sig{"call": cs.Name, "kind": "normalised", "norm": explained.v.name}, key, replay(explained.v.name, explained.rk, finding{}))
+	case len(tries) == 0:
+		cls := e.classify(mode, q)
+		for _, f := range r.fs {
+			e.report(full(cls, r.rk, f), key, replay("", r.rk, f))
+		}
+	default:
+		last := tries[len(tries)-1]
+
+		if sameFindings(last.fs, r.fs) && last.rk.Kind == r.rk.Kind {
+			// the normalisations do not matter for this disagreement: report it
+			// with the classes of the normalised (canonical) query
+			for _, f := range r.fs {
+				e.report(full(last.cls, r.rk, f), key, replay("", r.rk, f))
+			}
+
+			break
+		}
+
+		// normalising changes the comparison without settling it: two causes
+		for _, t := range tries {
+			if !sameFindings(t.fs, r.fs) || t.rk.Kind != r.rk.Kind {
+				e.report(kf.Sig{"call": cs.Name, "kind": "normalised", "norm": t.v.name}, key, replay(t.v.name, t.rk, finding{}))
+
+				break
+			}
+		}
+
+		for _, f := range last.fs {
+			e.report(full(last.cls, last.rk, f), key, replay(last.v.name, last.rk, f))
+		}
+	}
 
 	return nil
 }
@@ -315,70 +665,26 @@ func (e *evaluator) evalQuery(ci, mode, qrank int, comps []string, links []Link)
 	}
 
 	var (
-		lk, sk   fsx.Res
+		lk       fsx.Res
 		final    string
-		via, dd  string
-		classed  bool
 		pathDesc = modeNames[mode] + ":" + rel
 	)
 
-	classify := func() {
-		if !classed {
-			via, dd = w.classifyPath(mode, comps)
-			classed = true
-		}
-	}
-
-	handle := func(callIdx int, cs callSpec, rk, rv fsx.Res, fs []finding) {
+	book := func(cs callSpec, r evalRes) {
 		e.nEvals.Add(1)
 		e.out.Evals++
-		e.out.Classes[cs.Name+"|"+rk.Kind+"|"+final]++
-		e.mix(rk.String())
-		e.mix(rv.String())
+		e.out.Classes[cs.Name+"|"+r.rk.Kind+"|"+final]++
+		e.mix(r.rk.String())
+		e.mix(r.rv.String())
+
+		if len(r.fs) > 0 {
+			e.out.Disagreements++
+		}
 
 		if e.sampleN < 6 && e.out.Shard == 0 && (e.out.Evals%977 == 1) {
 			e.sampleN++
 			e.out.Samples = append(e.out.Samples, map[string]any{
-				"links": links, "cwd": modeNames[mode], "query": rel, "call": cs.Name, "kernel": e.clean(rk.String()), "avfs": e.clean(rv.String()),
-			})
-		}
-
-		if len(fs) == 0 {
-			return
-		}
-
-		classify()
-
-		for _, f := range fs {
-			sig := kf.Sig{
-				"call": cs.Name, "final": final, "via": via, "dd": dd, "form": map[bool]string{true: "abs", false: "rel"}[mode == 0],
-				"kernel": rk.Kind, "avfs": rv.Kind, "kind": f.kind,
-			}
-			if f.what != "" {
-				sig["what"] = f.what
-			}
-
-			f := f
-
-			e.report(sig, [4]int{ci, mode, qrank, callIdx}, func() map[string]any {
-				m := map[string]any{
-					"links": links, "cwd": modeNames[mode], "query": rel, "call": cs.Name, "operation": e.clean(w.callString(cs, q)),
-					"kernel": e.clean(rk.String()), "avfs": e.clean(rv.String()),
-					"note": "tree under R: dir d, file d/f (\"DF\"), file f (\"F\") + links; place R = link in R, place d = link in R/d; target R/x = absolute; cwd abs = query is R/<query>, relR = cwd R, reld = cwd R/d",
-				}
-				if rk.Msg != "" {
-					m["kernel_msg"] = e.clean(rk.Msg)
-				}
-
-				if rv.Msg != "" {
-					m["avfs_msg"] = e.clean(rv.Msg)
-				}
-
-				if f.treeDiff != "" {
-					m["tree_diff"] = f.treeDiff + "   (- kernel, + avfs; paths relative to BASE = R/../../../../..)"
-				}
-
-				return m
+				"links": links, "cwd": modeNames[mode], "query": rel, "call": cs.Name, "kernel": e.clean(r.rk.String()), "avfs": e.clean(r.rv.String()),
 			})
 		}
 	}
@@ -391,43 +697,38 @@ func (e *evaluator) evalQuery(ci, mode, qrank int, comps []string, links []Link)
 		d := pathDesc + " " + cs.Name
 		e.cur.Store(&d)
 
-		if !cs.Mut {
-			rk := w.run(w.k, cs, q)
-			rv := w.run(w.v, cs, q)
+		var r evalRes
 
-			switch cs.Name {
-			case "Lstat":
-				lk = rk
-			case "Stat":
-				sk = rk
-				final = finalClass(lk, sk)
+		kr, err := e.kernel(cs, q)
+		if err != nil {
+			return err
+		}
+
+		r.rk, r.kd = kr.rk, kr.kd
+
+		if !cs.Mut {
+			r.rv = w.run(w.v, cs, q)
+
+			if cs.Name == "Lstat" {
+				// the class of the final component needs the kernel's Stat too
+				lk = r.rk
+				sk, err := e.kernel(calls[1], q)
+				if err != nil {
+					return err
+				}
+
+				final = finalClass(lk, sk.rk)
 			}
 
-			if rv.Kind == "PANIC" || rv.Kind == "DEADLOCK" {
+			if r.rv.Kind == "PANIC" || r.rv.Kind == "DEADLOCK" {
 				w.dirtyV = true
 			}
 
-			fs := e.compareRO(cs, comps, rk, rv)
-
-			if cs.Name == "Lstat" {
-				// final class needs Stat too: postpone the bookkeeping of Lstat
-				// by evaluating Stat's kernel side now (read-only, idempotent)
-				sk0 := w.run(w.k, calls[1], q)
-				final = finalClass(lk, sk0)
-			}
-
-			handle(i, cs, rk, rv, fs)
-
-			if w.dirtyV {
-				if err := w.restore(); err != nil {
-					return err
-				}
-			}
-
-			continue
+			r.fs = e.compareRO(cs, q, r.rk, r.rv)
+		} else {
+			r.rv, r.vd = e.mutV(cs, q)
+			r.fs = e.compareMut(cs, r.rk, r.kd, r.rv, r.vd)
 		}
-
-		rk, rv, fs := e.evalMut(cs, q)
 
 		if w.dirtyK || w.dirtyV {
 			if err := w.restore(); err != nil {
@@ -435,7 +736,13 @@ func (e *evaluator) evalQuery(ci, mode, qrank int, comps []string, links []Link)
 			}
 		}
 
-		handle(i, cs, rk, rv, fs)
+		book(cs, r)
+
+		if len(r.fs) > 0 {
+			if err := e.explain(ci, mode, qrank, i, cs, comps, q, r, links); err != nil {
+				return err
+			}
+		}
 	}
 
 	return nil
@@ -502,6 +809,7 @@ func runWorker(tier, stageName string, shard, n, rot int, deadline time.Time, ou
 
 	write := func() {
 		out.Builds = w.builds
+		out.Undos = w.undos
 		b, _ := json.Marshal(out)
 		_ = os.WriteFile(outPath+".tmp", b, 0o644)
 		_ = os.Rename(outPath+".tmp", outPath)
